@@ -140,4 +140,4 @@ class JWTClaimsRegistry(ClaimsRegistry):
 
 
 def _validate_numeric_time(s: int) -> bool:
-    return isinstance(s, (int, float))
+    return isinstance(s, (int, float)) and not isinstance(s, bool)
